@@ -520,8 +520,13 @@ class Session:
                     tags.add("C10")
                 if kind == "connect" or any(x[0] == "closed" for x in rk + mk):
                     tags.add("C18")
+                extra = ""
+                if model_state is not None:
+                    ma = dict((a, b) for a, b in model_state["agents"])
+                    if c in ma:
+                        extra = f"; in the model agent {c} has status {ma[c]['status']}, ended={ma[c]['ended']}, steps={ma[c]['steps']}"
                 out.append((tags, f"outputs:{kind}:{'->'.join(str(x[1] or x[0]) for x in rk)}|{'->'.join(str(x[1] or x[0]) for x in mk)}",
-                            f"after {kind} on connection {cid}: connection {c} got {rk} from the real coordinator, the proved model says {mk}"))
+                            f"after {kind} on connection {cid}: connection {c} got {rk} from the real coordinator, the proved model says {mk}" + extra))
                 bad_shape = True
                 continue
             for o, m in zip(ro, mo):
@@ -537,7 +542,7 @@ class Session:
                         out.append(({"C15", "C12", "C07" if o.get("code") == "RESET_DONE" else "C04"}, f"view:{o.get('code')}",
                                     f"{o.get('code')} reply to {c}: the view sent differs from the view the model (fed with the world's own results) holds"))
                     if o["obs"]["reward"] != mob["reward"]:
-                        out.append(({"C05"} | ({"C07"} if o.get("code") == "RESET_DONE" else set()) | ({"C06"} if o["obs"]["end"] else set()), f"reward:{o.get('code')}:{kind}",
+                        out.append(({"C05"} | ({"C07"} if o.get("code") == "RESET_DONE" else set()) | ({"C06"} if o["obs"]["end"] else set()) | ({"C12"} if c != cid else set()), f"reward:{o.get('code')}:{kind}",
                                     f"{o.get('code')} reply to {c}: reward {o['obs']['reward']} but the reward rule gives {mob['reward']}"))
                     if o["obs"]["end"] != mob["end"] or o["obs"]["reason"] != mob["reason"]:
                         out.append(({"C04"} | ({"C17"} if "Fail" in (o["obs"]["reason"], mob["reason"]) else set()), f"end:{o.get('code')}:{o['obs']['end']},{o['obs']['reason']}|{mob['end']},{mob['reason']}",
